@@ -53,7 +53,7 @@ PROPS = {
                 rule="one invalid argument per single-party run (10 classes), repeated output indices (all parties), validate-ok-but-not-wf circuits (5 classes); distinct by (class, circuit, indices)"),
     "C19": dict(modules=["PolytuneModel.Thm.C19", "PolytuneModel.Thm.GenArith", "PolytuneModel.Thm.C19mpc"], theorems=["PolytuneModel.C19_mpc_use", "PolytuneModel.initLoop_spec", "PolytuneModel.chunkSizeIter_regular", "PolytuneModel.Buf.C19_refines", "PolytuneModel.Buf.C19_from_new", "PolytuneModel.chunksOf_flatten", "PolytuneModel.Gen_chunkSizeIter_eq"], drive="C19", also=["C19m"], cases=dict(quick=400, thorough=6000),
                 rule="seeded op sequences (non-empty appends, partial/full item reads, chunked reads, len<=12) on both real variants and the model; non-trivial = a read after an append; distinct by op sequence"),
-    "C20": dict(modules=["PolytuneModel.Thm.C20avxOuter", "PolytuneModel.Thm.C20avx", "PolytuneModel.Thm.C20transpose", "PolytuneModel.Thm.C20", "PolytuneModel.Thm.C20spec", "PolytuneModel.Thm.C20holes", "PolytuneModel.Thm.C20final", "PolytuneModel.Thm.C20ctr"], theorems=["PolytuneModel.Avx.Outer.C20_transpose_avx", "PolytuneModel.Avx.Outer.C20_transpose_avx_into", "PolytuneModel.Avx.Outer.writes_in_bounds", "PolytuneModel.Avx.Outer.loads_in_bounds", "PolytuneModel.Avx.C20_avx_transpose128", "PolytuneModel.Avx.pullAll_transposes", "PolytuneModel.TransposeP.C20_transpose_portable", "PolytuneModel.TransposeP.C20_transpose_portable_into", "PolytuneModel.TransposeP.writes_in_bounds", "PolytuneModel.TransposeP.loads_in_bounds", "PolytuneModel.AesRng.C20_ctr_single_call", "PolytuneModel.Holes.C20_clmul64_holes", "PolytuneModel.C20_clmul128_portable_exact", "PolytuneModel.C20_clmul128_portable_eq_spec", "PolytuneModel.C20_simd_eq_portable", "PolytuneModel.C20_clmul128_exact", "PolytuneModel.C20_pclmul128_exact", "PolytuneModel.clmul128Spec_eq_M", "PolytuneModel.C20_scalar_eq_simd", "PolytuneModel.karatsuba_mid"], drive="C20", cases=dict(quick=30, thorough=60), rule="transpose shapes 128 x c and random (single-bit, all-ones, random; unaligned), clmul basis / sparse / dense / random pairs, CR / TCCR hashes, AesRng fills of every sampled length; both dispatching and portable paths vs the Lean definitions; distinct by input"),
+    "C20": dict(modules=["PolytuneModel.Thm.C20avxOuter", "PolytuneModel.Thm.C20avx", "PolytuneModel.Thm.C20transpose", "PolytuneModel.Thm.C20", "PolytuneModel.Thm.C20spec", "PolytuneModel.Thm.C20holes", "PolytuneModel.Thm.C20final", "PolytuneModel.Thm.C20ctr"], theorems=["PolytuneModel.Avx.Outer.C20_transpose_avx_executable", "PolytuneModel.Avx.Outer.transposeAvxM_eq", "PolytuneModel.Avx.transpose128A_eq", "PolytuneModel.Avx.Outer.C20_transpose_avx", "PolytuneModel.Avx.Outer.C20_transpose_avx_into", "PolytuneModel.Avx.Outer.writes_in_bounds", "PolytuneModel.Avx.Outer.loads_in_bounds", "PolytuneModel.Avx.C20_avx_transpose128", "PolytuneModel.Avx.pullAll_transposes", "PolytuneModel.TransposeP.C20_transpose_portable", "PolytuneModel.TransposeP.C20_transpose_portable_into", "PolytuneModel.TransposeP.writes_in_bounds", "PolytuneModel.TransposeP.loads_in_bounds", "PolytuneModel.AesRng.C20_ctr_single_call", "PolytuneModel.Holes.C20_clmul64_holes", "PolytuneModel.C20_clmul128_portable_exact", "PolytuneModel.C20_clmul128_portable_eq_spec", "PolytuneModel.C20_simd_eq_portable", "PolytuneModel.C20_clmul128_exact", "PolytuneModel.C20_pclmul128_exact", "PolytuneModel.clmul128Spec_eq_M", "PolytuneModel.C20_scalar_eq_simd", "PolytuneModel.karatsuba_mid"], drive="C20", cases=dict(quick=30, thorough=60), rule="transpose shapes 128 x c and random (single-bit, all-ones, random; unaligned), clmul basis / sparse / dense / random pairs, CR / TCCR hashes, AesRng fills of every sampled length; both dispatching and portable paths vs the Lean definitions; distinct by input"),
 }
 
 def sh(cmd, cwd=None, timeout=3600, env=None):
